@@ -19,7 +19,7 @@
 EXTENDS XRefHistory
 CONSTANTS Objs, MaxRevs, Styles, MaxPieces,
           ZeroFree,       \* TRUE: listing object 0 again in an update is explored as a free choice
-          STRICT_LENGTH   \* TRUE: no carve-out for ShortIntoTrailingWS / NullTakenAsZero (negative control)
+          STRICT_LENGTH   \* TRUE: no carve-out for ShortIntoTrailingWS (negative control)
 
 VARIABLES mode, hist, phase, cur, part, xref, seen, trl, body
 vars == <<mode, hist, phase, cur, part, xref, seen, trl, body>>
@@ -147,7 +147,7 @@ ExtentOK ==
       \A lk \in LKinds : \A v \in DeclRange(D, lk) :
         LET declared == RefDeclared(lk, v) IN
         (/\ Admissible(D, blen, declared)
-         /\ STRICT_LENGTH \/ (~ShortIntoTrailingWS(D, blen, declared) /\ ~NullTakenAsZero(D, blen, lk)))
+         /\ STRICT_LENGTH \/ ~ShortIntoTrailingWS(D, blen, declared))
           => ImplExtent(D, ImplDeclared(lk, v)) = RefExtent(D, blen)
 \* a correct length is right for every body, admissible or not
 CorrectOK ==
@@ -156,7 +156,6 @@ CorrectOK ==
 DivergenceIs ==
   mode = "extent" =>
     \A eol \in Eols : LET D == DataOf(eol) blen == Len(body) IN
-      /\ \A declared \in 0..blen :
-           (Admissible(D, blen, declared) /\ ShortIntoTrailingWS(D, blen, declared)) => ImplExtent(D, declared) = declared
-      /\ (Admissible(D, blen, -1) /\ NullTakenAsZero(D, blen, "null")) => ImplExtent(D, ImplDeclared("null", -1)) = 0
+      \A declared \in 0..blen :
+        (Admissible(D, blen, declared) /\ ShortIntoTrailingWS(D, blen, declared)) => ImplExtent(D, declared) = declared
 =============================================================================
